@@ -464,25 +464,50 @@ def busy(chk, repo):
                 rn = cfg.nodes_of(r)[0]
                 for nm in sorted({x.id for x in ast.walk(r.value)
                                   if isinstance(x, ast.Name)}):
-                    ds = rd.reaching(rn, nm)
-                    ok = bool(ds)
                     why = ""
-                    for d in ds:
-                        st = d.node.stmt if d.node is not None else None
-                        inloop = any(st in w.body for w in loops) \
-                            if st is not None else False
-                        same_read = st is not None and isinstance(
-                            st, ast.Assign) and isinstance(
-                                st.targets[0], ast.Tuple) and any(
-                                    isinstance(exit_test(w), ast.BinOp) and
-                                    unparse(exit_test(w).left) in [
-                                        unparse(e) for e in
-                                        st.targets[0].elts]
-                                    for w in loops if st in w.body)
-                        if not (inloop and same_read):
-                            ok = False
-                            why = (f"`{nm}` comes from "
-                                   f"`{unparse(st)[:50] if st else '?'}`")
+
+                    def from_final(at, nm_, depth=0):
+                        """every definition of `nm_` reaching `at` is
+                        unpacked together with the status that ends its
+                        polling loop, or is put together from such values
+                        without any call"""
+                        nonlocal why
+                        ds_ = rd.reaching(at, nm_)
+                        if not ds_ or depth > 4:
+                            why = why or f"`{nm_}` has no definition"
+                            return False
+                        for d in ds_:
+                            st = d.node.stmt if d.node is not None else None
+                            inloop = any(st in w.body for w in loops) \
+                                if st is not None else False
+                            same_read = st is not None and isinstance(
+                                st, ast.Assign) and isinstance(
+                                    st.targets[0], ast.Tuple) and any(
+                                        isinstance(exit_test(w), ast.BinOp)
+                                        and unparse(exit_test(w).left) in [
+                                            unparse(e) for e in
+                                            st.targets[0].elts]
+                                        for w in loops if st in w.body)
+                            if inloop and same_read:
+                                continue
+                            if isinstance(st, ast.Assign) and not inloop \
+                                    and isinstance(st.targets[0], ast.Name) \
+                                    and not any(isinstance(x, (
+                                        ast.Call, ast.Await, ast.Attribute))
+                                        for x in ast.walk(st.value)):
+                                parts = sorted({
+                                    x.id for x in ast.walk(st.value)
+                                    if isinstance(x, ast.Name)})
+                                if parts and all(from_final(
+                                        d.node, q, depth + 1)
+                                        for q in parts):
+                                    continue
+                            why = why or (
+                                f"`{nm_}` comes from "
+                                f"`{unparse(st)[:50] if st else '?'}`")
+                            return False
+                        return True
+                    ok = from_final(rn, nm)
                     chk.ob("R17.2", sym, f"`{nm}` returned by "
                            f"`{' '.join(unparse(r).split())[:30]}` was read "
                            f"together with the final not-busy status", ok, r,
